@@ -406,6 +406,8 @@ class Exec:
         self._pick_i = 0
         self._det = self.annotate(a)
         self.world.app_log.step = len(self.actions)
+        if self.impl == 'thread':
+            self.world.sched.arm(a.get('preempt'))
         op = a['op']
         self._quiet_now = False
         n_reqs = len(self.world.reqs)
@@ -931,6 +933,11 @@ class Drawer:
                 sch = self.draw(st.lists(st.integers(0, 3), max_size=3))
                 if sch:
                     a['sched'] = sch
+            if ex.impl == 'thread' and getattr(ex.world.sched, 'trace_on', False) and \
+                    self.draw(st.integers(0, 2)) == 0:
+                # line-granularity switching points inside the library for this step
+                a['preempt'] = sorted(self.draw(st.lists(st.integers(1, 400), min_size=1,
+                                                         max_size=3)))
         return a
 
     # each a_* returns an action dict
